@@ -38,7 +38,11 @@ def _all_exits_dominated(fn, bb):
 
 class _Reqs:
     # ---------------------------------------------------------------- C09.1
-    def req_paired_pushes(self):
+    def req_every_accepted_request_queued(self):
+        """C09: the adders queue the request (and its leaf) on every path, no silent drop."""
+        return self.req_paired_pushes(strict=True)
+
+    def req_paired_pushes(self, strict=False):
         P, W = self.P, self.W
         adders = []
         for name in ("add_classic_request", "add_ietf_request"):
@@ -52,7 +56,13 @@ class _Reqs:
                    and ev.call_args(bb)[0] == ("field", ("param", fn.path, 1), "requests")]
             if len(leaf) != 1 or len(req) != 1:
                 return False, "%s performs %d push_leaf and %d requests.push" % (name, len(leaf), len(req))
-            if not (_all_exits_dominated(fn, leaf[0]) and _all_exits_dominated(fn, req[0])):
+            # balance: a path performs both pushes or neither (an early return before both keeps leaves and queue in step)
+            first, second = (leaf[0], req[0]) if fn.dominates(leaf[0], req[0]) else (req[0], leaf[0])
+            balanced = fn.dominates(first, second) and not fn.in_loop(first) and not fn.in_loop(second) and \
+                values.must_pass(fn, [second], from_block=fn.succ(first)[0]) if fn.succ(first) else False
+            if not balanced:
+                return False, "%s can push a leaf without queueing the request (or the reverse)" % name
+            if strict and not (_all_exits_dominated(fn, leaf[0]) and _all_exits_dominated(fn, req[0])):
                 return False, "%s does not push both on every path" % name
             adders.append(fn.path)
         # nobody else pushes onto Responder.requests / calls push_leaf
@@ -69,7 +79,8 @@ class _Reqs:
                     a = ev.call_args(bb)
                     if a and a[0] == ("field", ("param", fn.path, 1), "requests"):
                         return False, "%s also pushes onto requests" % fn.path
-        return True, "add_classic_request/add_ietf_request push one leaf and one request on every path; nobody else does"
+        return True, ("add_classic_request/add_ietf_request push one leaf and one request on every path; nobody else does" if strict else
+                      "add_classic_request/add_ietf_request push a leaf exactly when they queue the request; nobody else does")
 
     def req_merkle_nonempty_before_compute_root(self):
         P, W = self.P, self.W
